@@ -17,3 +17,11 @@ func init() {
 func init() {
 	register("C06", Rule{Name: "C06.limit", Run: runC06Limit}, Rule{Name: "C06.placeholders", Run: runC06Placeholders}, Rule{Name: "C06.plaintext", Run: runC06PlainText})
 }
+
+func init() {
+	register("C15", Rule{Name: "E1.rows", Run: runRows("C15")}, Rule{Name: "E1.pairing", Run: runKindPairing})
+}
+
+func init() {
+	register("C07", Rule{Name: "E1.rows", Run: runRows("C07")})
+}
